@@ -997,8 +997,9 @@ class IkeSa(object):
         self.creating_child_sa = self.creating_child_sa._replace(outbound_spi=chosen_child_proposal.spi,
                                                                  proposal=chosen_child_proposal, tsi=chosen_tsi,
                                                                  tsr=chosen_tsr)
-        self.child_sas.append(self.creating_child_sa)
+        # only keep track of the CHILD_SA once the kernel has accepted it
         xfrm.Xfrm.create_child_sa(self, self.creating_child_sa, child_sa_keyring, is_initiator=True)
+        self.child_sas.append(self.creating_child_sa)
         self.log_info(f'Created CHILD_SA {self.creating_child_sa}')
 
     def process_ike_auth_response(self, response):
